@@ -46,7 +46,7 @@ PROPS["C14"] = {
                   "harnesses on a reader scaled to a 4-octet buffer, and single cleanup_buffer/fill_buffer steps, all ran out of "
                   "14-45 GB in CBMC's array post-processing: two replace_newlines passes plus BytesMut appends at symbolic offsets; "
                   "probes kept unregistered in harness/c14_norm.rs) and inputs above the stated lengths.",
-    "inject": [("src/lib.rs", "c14_hasher"), ("src/normalize_lines.rs", "c14_norm"), ("src/packet/literal_data.rs", "c14_lit")],
+    "inject": [("src/lib.rs", "c14_hasher"), ("src/normalize_lines.rs", "c14_norm"), ("src/packet/literal_data.rs", "c14_lit"), ("src/util.rs", "c14_hstate")],
     "mem_gb": 14,
     "bounds": "hasher: one chunk of L<=4 (quick) / L<=6 (thorough) arbitrary bytes from pre-state in {fresh, "
               "after-CR}, plus two-chunk compositions",
@@ -62,6 +62,10 @@ PROPS["C14"] = {
         H("c14_hasher_two_2_1", "c14_hasher", "quick", 600, "two chunks 2+1", HASHER, "L=3"),
         H("c14_hasher_two_2_2", "c14_hasher", "thorough", 900, "two chunks 2+2", HASHER, "L=4"),
         H("c14_hasher_binary_3", "c14_hasher", "quick", 300, "binary mode identity", HASHER, "L=3"),
+    ] + [
+        H("c14_hasher_carry_%d" % l, "c14_hstate", "quick" if l in (1, 2) else "thorough", 600,
+          "pre-state x one chunk of %d symbolic bytes: the carried flag afterwards is exactly 'last octet was CR' (closes the induction of the one-step harnesses)" % l,
+          ["util::NormalizingHasher::{new,hash_buf}"], "L=%d" % l) for l in range(0, 4)
     ] + [
         H("c14_replace_%d" % l, "c14_norm", "quick" if l <= 2 else "thorough", 600 if l <= 2 else 1800,
           "replace_newlines(x, CRLF) == reference for every x of length %d" % l,
@@ -486,7 +490,7 @@ def _pick(pid, names, tier_map=None):
 
 
 PROPS["C06"] = {
-    "inject": [("src/packet/signature/types.rs", "c11_sig"), ("src/lib.rs", "c14_hasher"), ("src/normalize_lines.rs", "c14_norm")],
+    "inject": [("src/packet/signature/types.rs", "c11_sig"), ("src/lib.rs", "c14_hasher"), ("src/normalize_lines.rs", "c14_norm"), ("src/util.rs", "c14_hstate")],
     "substitutions": PROPS["C14"]["substitutions"],
     "mem_gb": 14,
     "level_text": "Sign-side and verify-side computations are shown equal by bounded model checking of each side against the same independent "
@@ -502,10 +506,10 @@ PROPS["C06"] = {
     "assumptions": SIG_ASSUME + PROPS["C14"]["assumptions"],
     "harnesses": _pick("C11", {"c11_sign_data_v4_2_bin", "c11_sign_data_v4_2_text", "c11_verify_data_v4_2", "c11_sign_data_v6_2_text", "c11_sign_data_v6_2_bin", "c11_verify_data_v6_2", "c11_sign_key_v4", "c11_verify_key_v6",
                                "c11_sign_subkey_binding_v4", "c11_verify_subkey_binding_v6", "c11_sign_primary_binding_v6", "c11_verify_primary_binding_v4",
-                               "c11_sign_cert_v4_positive", "c11_verify_cert_v4_positive"},
-                       {"c11_sign_data_v6_2_text": "thorough", "c11_sign_data_v6_2_bin": "thorough", "c11_sign_primary_binding_v6": "thorough", "c11_verify_primary_binding_v4": "thorough",
+                               "c11_sign_cert_v4_positive", "c11_verify_cert_v4_positive", "c11_sign_cert_v4_revocation", "c11_verify_cert_v4_revocation"},
+                       {"c11_verify_cert_v4_revocation": "quick", "c11_sign_data_v6_2_text": "thorough", "c11_sign_data_v6_2_bin": "thorough", "c11_sign_primary_binding_v6": "thorough", "c11_verify_primary_binding_v4": "thorough",
                         "c11_sign_subkey_binding_v4": "thorough", "c11_verify_subkey_binding_v6": "thorough"})
-                 + _pick("C14", {"c14_hasher_step_3", "c14_hasher_two_1_2", "c14_replace_2"}),
+                 + _pick("C14", {"c14_hasher_step_3", "c14_hasher_two_1_2", "c14_replace_2", "c14_hasher_carry_1", "c14_hasher_carry_2", "c14_reader_fill_0", "c14_reader_step_0"}),
 }
 
 # ------------------------------------------------------------------------------------------------
